@@ -852,6 +852,9 @@ func vpC36GenReq(t *rapid.T, rich bool, excl map[string]bool) *vpC36Req {
 	switch r.Method {
 	case "POST", "PUT", "PATCH", "DELETE":
 		hasBody = rapid.IntRange(0, 4).Draw(t, "hasbody") != 0
+	case "GET", "HEAD", "OPTIONS":
+		// a payload is framed by Content-Length / Transfer-Encoding whatever the method: net/http hands it to the handler
+		hasBody = rapid.IntRange(0, 5).Draw(t, "hasbodyget") == 0
 	}
 	if hasBody {
 		r.Body = vpC36GenData(t)
